@@ -524,6 +524,10 @@ impl Gen {
             let pos = rng.below(lines.len() + 1);
             lines.insert(pos, rng.pick(&MALFORMED).to_string());
         }
+        // one file in six starts with an interpreter line (an ordinary comment: it is line 1)
+        if rng.chance(1, 6) {
+            lines.insert(0, "#!/usr/bin/env duck".to_string());
+        }
         // where the directives ended up
         for (k, l) in lines.iter().enumerate() {
             if l.trim_start().starts_with(INCLUDE) {
